@@ -65,7 +65,10 @@ func c05Case(c *mon.Ctx, i int, record bool) {
 	var o *mon.Obj
 	var desc string
 	var isSeed bool
-	if sb := c05SingleBase(c); i >= sb {
+	if sb := c05SingleBase(c); i >= sb+c05SingleCases(c) {
+		c05Lattice(c, i-sb-c05SingleCases(c))
+		return
+	} else if i >= sb {
 		c05Single(c, i, i-sb)
 		return
 	}
@@ -257,7 +260,7 @@ func init() {
 			return nil
 		},
 		Cases: func(c *mon.Ctx) int {
-			return c05SingleBase(c) + c05SingleCases(c)
+			return c05SingleBase(c) + c05SingleCases(c) + c05LatticeCases(c)
 		},
 		RunCase: func(c *mon.Ctx, i int) { c05Case(c, i, c.Only >= 0 || i%c05FreshEvery == 0) },
 		Aux:     map[string]func(c *mon.Ctx){"io": c05IOAux, "env": c05EnvAux},
@@ -468,6 +471,57 @@ func c05Single(c *mon.Ctx, i, k int) {
 	}
 	c.R.Count("pool_members_digested", 1)
 	c.R.Distinct("digest", fmt.Sprintf("%d=%s", i, mon.SnapDigest(stripClock(mon.SnapOf(rs)))))
+}
+
+// ---- the key usage x extended key usage lattice, completely, with repetitions ----
+//
+// Verdicts assembled from per-purpose tables (maps) are the classic place for iteration-order dependence; whether a
+// cell is affected depends on the exact bit set and purpose list, and the unstable outcome may be rare (1 run in 10).
+// Every cell is linted 10 times (fresh parses) through a registry filtered to the certificate lints of the RFC 5280
+// source (the whole registry at thorough); status and details must not vary.
+
+func c05LatticeCases(c *mon.Ctx) int { return kuekuSize() }
+
+var (
+	c05LatticeReg  lint.Registry
+	c05LatticeOnce sync.Once
+)
+
+func c05Lattice(c *mon.Ctx, k int) {
+	c05LatticeOnce.Do(func() {
+		c05LatticeReg = lint.GlobalRegistry()
+		if !c.Thorough() {
+			if r, err := lint.GlobalRegistry().Filter(lint.FilterOptions{IncludeSources: lint.SourceList{lint.RFC5280}}); err == nil {
+				c05LatticeReg = r
+			}
+		}
+	})
+	o, how := kuekuCase(k)
+	if o == nil {
+		return
+	}
+	rs, pv, _ := o.Lint(c05LatticeReg)
+	c.R.Count("evaluations", 1)
+	if pv != nil || rs == nil {
+		return
+	}
+	first := mon.SnapOf(rs)
+	for rep := 0; rep < 9; rep++ {
+		t := o.Reparse()
+		if t == nil {
+			t = o
+		}
+		rs2, pv2, _ := t.Lint(c05LatticeReg)
+		c.R.Count("evaluations", 1)
+		if pv2 != nil || rs2 == nil {
+			continue
+		}
+		c.R.Count("lattice_repetitions_compared", 1)
+		for _, d := range c05FirstDiff(first, mon.SnapOf(rs2)) {
+			name := strings.SplitN(d, ":", 2)[0]
+			c.V("repeat|"+name, fmt.Sprintf("repeat: same object, registry and configuration, different result: %s (input gen/kueku-lattice: %s)", clipS(d, 300), how), name, inputs(o), nil)
+		}
+	}
 }
 
 // ---- long repetitions: behaviour that depends on how often something was called ----
